@@ -1829,7 +1829,8 @@ def is_runner(prog, gid):
         for c in body.calls:
             if c.bb not in body.reachable() or c.name == 'poll':
                 continue
-            if any(op_local(a) in carried for a in c.args) and any(t in prog.fns and t != gid and is_runner(prog, t) for t in prog.resolve(c)):
+            direct = c.name in ('spawn_blocking', 'block_in_place') and c.crate == 'tokio'    # `spawn_blocking(f)`: f itself is run
+            if any(op_local(a) in carried for a in c.args) and (direct or any(t in prog.fns and t != gid and is_runner(prog, t) for t in prog.resolve(c))):
                 cb = completion_block(body, c)
                 if cb is not None:
                     done.append(cb)
